@@ -218,7 +218,7 @@ Proof. unfold register. destruct ss; simpl; rewrite ?app_nil_r; repeat split. Qe
 Lemma inv_step i past r o : Inv i past r -> Inv i (past ++ [o]) (fst (step r o)).
 Proof.
   intros [Hfb Hpre Hids Hsinks Hrun].
-  destruct o as [s p c ss | s t ss | | | via e]; simpl.
+  destruct o as [s p c ss | s t ss | | | via e | s w ss]; simpl.
   - (* AddPrefix *)
     destruct (register (with_rules r (put Nat.eqb p (s, c) (r_prefixes r)) (r_ids r)) s ss) as [r' d] eqn:E.
     pose proof (register_fields (with_rules r (put Nat.eqb p (s, c) (r_prefixes r)) (r_ids r)) s ss) as F.
@@ -270,20 +270,26 @@ Proof.
       + rewrite registered_snoc. simpl. rewrite app_nil_r. exact Hsinks.
       + rewrite in_run_snoc. exact Hrun. }
     destruct (route_status r (pushed via e)) as [[t e']|]; exact H.
+  - (* AddRej: the router is unchanged, and the history functions skip the call *)
+    constructor; try assumption.
+    + intro q. rewrite prefix_rules_snoc, app_nil_r. apply Hpre.
+    + intro u. rewrite id_rules_snoc, app_nil_r. apply Hids.
+    + rewrite registered_snoc. simpl. rewrite app_nil_r. exact Hsinks.
+    + rewrite in_run_snoc. exact Hrun.
 Qed.
 
 (* ---------- sinks named by rules exist ---------- *)
 Lemma prefix_rules_sinks past p s c : In (s, c) (prefix_rules past p) -> In s (flat_map op_sinks past).
 Proof.
   unfold prefix_rules. intro H. apply in_flat_map in H as [o [Ho H]]. apply in_flat_map. exists o. split; [exact Ho|].
-  destruct o as [s' q c' ss| | | |]; simpl in *; try contradiction.
+  destruct o as [s' q c' ss| | | | |]; simpl in *; try contradiction.
   destruct (Nat.eqb q p); simpl in H; [|contradiction]. destruct H as [H|[]]. injection H as -> _. left; reflexivity.
 Qed.
 
 Lemma id_rules_sinks past t s : In s (id_rules past t) -> In s (flat_map op_sinks past).
 Proof.
   unfold id_rules. intro H. apply in_flat_map in H as [o [Ho H]]. apply in_flat_map. exists o. split; [exact Ho|].
-  destruct o as [|s' u ss| | |]; simpl in *; try contradiction.
+  destruct o as [|s' u ss| | | |]; simpl in *; try contradiction.
   destruct (id_eqb u t); simpl in H; [|contradiction]. destruct H as [H|[]]. left; exact H.
 Qed.
 
@@ -365,7 +371,7 @@ Lemma step_ok i past r o :
   step_okb i past o (to_obs (n_sinks i) (snd (step r o))) = true.
 Proof.
   intros HI Hrange.
-  destruct o as [s p c ss | s t ss | | | via e].
+  destruct o as [s p c ss | s t ss | | | via e | s w ss].
   - unfold step_okb, to_obs, step.
     apply (add_ok i past (with_rules r (put Nat.eqb p (s, c) (r_prefixes r)) (r_ids r)) s ss).
     simpl. apply (inv_run _ _ _ HI).
@@ -375,6 +381,7 @@ Proof.
   - simpl. apply per_sink_ok. intros k _. rewrite (inv_sinks _ _ _ HI). apply calls_for_map.
   - simpl. apply per_sink_ok. intros k _. rewrite (inv_sinks _ _ _ HI). apply calls_for_map.
   - apply status_ok; assumption.
+  - simpl. apply per_sink_ok. intros k _. reflexivity.
 Qed.
 
 Lemma run_ok i : forall l past r,
@@ -396,7 +403,7 @@ Lemma round_ok l :
   flat_map (fun o => match o with Status via e => [e_route (roundtrip via e)] | _ => [] end) l = status_routes l.
 Proof.
   unfold status_routes. induction l as [|o l IH]; simpl; [reflexivity|].
-  destruct o as [| | | |via e]; simpl; try exact IH.
+  destruct o as [| | | |via e|]; simpl; try exact IH.
   rewrite andb_true_iff. intros [H1 H2]. rewrite roundtrip_id by exact H1. rewrite IH by exact H2. reflexivity.
 Qed.
 
@@ -466,9 +473,10 @@ Qed.
 
 Lemma step_okb_sound i past o so : step_okb i past o so = true -> Step_spec i past o so.
 Proof.
-  destruct o as [s p c ss | s t ss | | | via e]; simpl;
+  destruct o as [s p c ss | s t ss | | | via e | s w ss]; simpl;
     try (rewrite andb_true_iff, negb_true_iff, new_is_spec; intros [H1 H2]; split; assumption).
-  apply status_okb_sound.
+  - apply status_okb_sound.
+  - rewrite andb_true_iff, new_is_spec. intros [H1 H2]; split; assumption.
 Qed.
 
 Lemma steps_okb_sound i : forall l past os,
@@ -505,7 +513,7 @@ Lemma prefix_rules_absent l p : ~ In p (prefix_keys l) -> prefix_rules l p = [].
 Proof.
   induction l as [|o l IH]; simpl; [reflexivity|]. intro N.
   unfold prefix_keys in N. simpl in N. fold (prefix_keys l) in N.
-  destruct o as [s q c ss| | | |]; simpl in *; try (apply IH; exact N).
+  destruct o as [s q c ss| | | | |]; simpl in *; try (apply IH; exact N).
   destruct (Nat.eqb q p) eqn:E.
   - apply Nat.eqb_eq in E. exfalso. apply N. left; exact E.
   - simpl. apply IH. intro H. apply N. right; exact H.
@@ -515,7 +523,7 @@ Lemma prefix_rules_unique l p : NoDup (prefix_keys l) -> length (prefix_rules l 
 Proof.
   induction l as [|o l IH]; simpl; [lia|]. intro N.
   unfold prefix_keys in N. simpl in N. fold (prefix_keys l) in N.
-  destruct o as [s q c ss| | | |]; simpl in *; try (apply IH; exact N).
+  destruct o as [s q c ss| | | | |]; simpl in *; try (apply IH; exact N).
   inversion N as [|? ? N1 N2]; subst.
   destruct (Nat.eqb q p) eqn:E.
   - apply Nat.eqb_eq in E. subst q. simpl. rewrite (prefix_rules_absent l p N1). simpl. lia.
@@ -526,7 +534,7 @@ Lemma id_rules_absent l t : ~ In t (id_keys l) -> id_rules l t = [].
 Proof.
   induction l as [|o l IH]; simpl; [reflexivity|]. intro N.
   unfold id_keys in N. simpl in N. fold (id_keys l) in N.
-  destruct o as [|s u ss| | |]; simpl in *; try (apply IH; exact N).
+  destruct o as [|s u ss| | | |]; simpl in *; try (apply IH; exact N).
   destruct (id_eqb u t) eqn:E.
   - apply id_eqb_spec in E. exfalso. apply N. left; exact E.
   - simpl. apply IH. intro H. apply N. right; exact H.
@@ -536,7 +544,7 @@ Lemma id_rules_unique l t : NoDup (id_keys l) -> length (id_rules l t) <= 1.
 Proof.
   induction l as [|o l IH]; simpl; [lia|]. intro N.
   unfold id_keys in N. simpl in N. fold (id_keys l) in N.
-  destruct o as [|s u ss| | |]; simpl in *; try (apply IH; exact N).
+  destruct o as [|s u ss| | | |]; simpl in *; try (apply IH; exact N).
   inversion N as [|? ? N1 N2]; subst.
   destruct (id_eqb u t) eqn:E.
   - apply id_eqb_spec in E. subst u. simpl. rewrite (id_rules_absent l t N1). simpl. lia.
@@ -557,7 +565,7 @@ Qed.
 Lemma prefix_rules_to_op past s p c : In (s, c) (prefix_rules past p) -> exists ss, In (AddPrefix s p c ss) past.
 Proof.
   unfold prefix_rules. intro H. apply in_flat_map in H as [o [Ho H]].
-  destruct o as [s' q c' ss| | | |]; simpl in H; try contradiction.
+  destruct o as [s' q c' ss| | | | |]; simpl in H; try contradiction.
   destruct (Nat.eqb q p) eqn:E; simpl in H; [|contradiction]. apply Nat.eqb_eq in E. subst q.
   destruct H as [H|[]]. injection H as -> ->. exists ss. exact Ho.
 Qed.
@@ -569,7 +577,7 @@ Qed.
 Lemma id_rules_to_op past s t : In s (id_rules past t) -> exists ss, In (AddId s t ss) past.
 Proof.
   unfold id_rules. intro H. apply in_flat_map in H as [o [Ho H]].
-  destruct o as [|s' u ss| | |]; simpl in H; try contradiction.
+  destruct o as [|s' u ss| | | |]; simpl in H; try contradiction.
   destruct (id_eqb u t) eqn:E; simpl in H; [|contradiction]. apply id_eqb_spec in E. subst u.
   destruct H as [H|[]]. subst s'. exists ss. exact Ho.
 Qed.
@@ -666,7 +674,7 @@ Lemma count_registration_le s l : count s (flat_map registration l) <= count s (
 Proof.
   induction l as [|o l IH]; simpl; [lia|]. rewrite !count_app.
   assert (count s (registration o) <= count s (op_sinks o)); [|lia].
-  destruct o as [s' p c [|]|s' t [|]| | |]; simpl; try lia; destruct (Nat.eq_dec s' s); lia.
+  destruct o as [s' p c [|]|s' t [|]| | | |]; simpl; try lia; destruct (Nat.eq_dec s' s); lia.
 Qed.
 
 Lemma count_firstn_le {A} (f : A -> list sink) s l k : count s (flat_map f (firstn k l)) <= count s (flat_map f l).
@@ -727,6 +735,7 @@ Theorem start_stop i : wf i -> wf_distinct i -> forall k o so s,
     | Stop => if memb s (registered i past) then [StopRun] else []
     | AddPrefix s' _ _ ss | AddId s' _ ss => if Nat.eqb s' s && ss && in_run past then [StartRun] else []
     | Status _ _ => []
+    | AddRej _ _ _ => []
     end.
 Proof.
   intros Hwf Hd k o so s Ho Hso Hs past.
@@ -742,12 +751,13 @@ Proof.
   { intros s' ss [_ [_ HN]]. rewrite (HN s Hs). rewrite (Nat.eqb_sym s' s), <- andb_assoc.
     destruct (ss && in_run past); [|rewrite andb_false_r; reflexivity].
     rewrite andb_true_r. unfold only. destruct (Nat.eqb s s'); reflexivity. }
-  destruct o as [s' p c ss | s' t ss | | | via e]; simpl in HS.
+  destruct o as [s' p c ss | s' t ss | | | via e | s' w ss]; simpl in HS.
   - apply Hadd. exact HS.
   - apply Hadd. exact HS.
   - destruct HS as [_ [_ HN]]. rewrite (HN s Hs), C1. destruct (memb s (registered i past)); reflexivity.
   - destruct HS as [_ [_ HN]]. rewrite (HN s Hs), C2. destruct (memb s (registered i past)); reflexivity.
   - eapply status_spec_no_start_stop; [exact HS | exact Hs].
+  - destruct HS as [_ [_ HN]]. rewrite (HN s Hs). reflexivity.
 Qed.
 
 Lemma firstn_le_incl {A} (l : list A) : forall j k x, j <= k -> In x (firstn j l) -> In x (firstn k l).
@@ -872,6 +882,7 @@ Definition ss_at (i : input) (s : sink) (past : list op) (o : op) : list call :=
   | Stop => if memb s (registered i past) then [StopRun] else []
   | AddPrefix s' _ _ ss | AddId s' _ ss => if Nat.eqb s' s && ss && in_run past then [StartRun] else []
   | Status _ _ => []
+  | AddRej _ _ _ => []
   end.
 
 Fixpoint ss_expected (i : input) (s : sink) (past l : list op) : list call :=
@@ -891,12 +902,13 @@ Proof.
   { intros s' ss [_ [_ HN]]. rewrite (HN s Hs). rewrite (Nat.eqb_sym s' s), <- andb_assoc.
     destruct (ss && in_run past); [|rewrite andb_false_r; reflexivity].
     rewrite andb_true_r. unfold only. destruct (Nat.eqb s s'); reflexivity. }
-  destruct o as [s' p c ss | s' t ss | | | via e]; simpl in HS; simpl ss_at.
+  destruct o as [s' p c ss | s' t ss | | | via e | s' w ss]; simpl in HS; simpl ss_at.
   - apply Hadd. exact HS.
   - apply Hadd. exact HS.
   - destruct HS as [_ [_ HN]]. rewrite (HN s Hs), C1. destruct (memb s (registered i past)); reflexivity.
   - destruct HS as [_ [_ HN]]. rewrite (HN s Hs), C2. destruct (memb s (registered i past)); reflexivity.
   - eapply status_spec_no_start_stop; [exact HS | exact Hs].
+  - destruct HS as [_ [_ HN]]. rewrite (HN s Hs). reflexivity.
 Qed.
 
 Lemma registered_app_count i s past l :
@@ -929,7 +941,7 @@ Proof.
   assert (Hreg : count s (registration o) = 0).
   { replace (past ++ o :: l) with ((past ++ [o]) ++ l) in Hc by (rewrite <- app_assoc; reflexivity).
     pose proof (registered_app_count i s (past ++ [o]) l). rewrite registered_snoc, count_app in H. lia. }
-  destruct o as [s' p c ss | s' t ss | | | via e]; simpl; rewrite ?Hm; try reflexivity.
+  destruct o as [s' p c ss | s' t ss | | | via e | s' w ss]; simpl; rewrite ?Hm; try reflexivity.
   - destruct (Nat.eqb s' s) eqn:E; [|reflexivity]. apply Nat.eqb_eq in E. subst s'.
     destruct ss; [|reflexivity]. simpl in Hreg. destruct (Nat.eq_dec s s); [discriminate|contradiction].
   - destruct (Nat.eqb s' s) eqn:E; [|reflexivity]. apply Nat.eqb_eq in E. subst s'.
@@ -943,7 +955,7 @@ Lemma ss_expected_registered i s : forall l past,
 Proof.
   induction l as [|o l IH]; intros past Hm Hc; [reflexivity|]. simpl in *. rewrite count_app in Hc.
   rewrite IH; [| |lia].
-  - f_equal. destruct o as [s' p c ss | s' t ss | | | via e]; simpl; rewrite ?Hm; try reflexivity.
+  - f_equal. destruct o as [s' p c ss | s' t ss | | | via e | s' w ss]; simpl; rewrite ?Hm; try reflexivity.
     + destruct (Nat.eqb s' s) eqn:E; [|reflexivity]. apply Nat.eqb_eq in E. subst s'.
       destruct ss; [|reflexivity]. simpl in Hc. destruct (Nat.eq_dec s s); [lia|contradiction].
     + destruct (Nat.eqb s' s) eqn:E; [|reflexivity]. apply Nat.eqb_eq in E. subst s'.
@@ -994,7 +1006,7 @@ Proof.
       - f_equal. apply IH. exact Ho. }
     set (pre := firstn k (ops i)) in *. set (post := skipn (S k) (ops i)) in *.
     assert (Hreg1 : count s (registration o) = 1).
-    { destruct o as [s' p c [|]|s' t [|]| | |]; simpl in Hin; try contradiction;
+    { destruct o as [s' p c [|]|s' t [|]| | | |]; simpl in Hin; try contradiction;
         destruct Hin as [->|[]]; simpl; destruct (Nat.eq_dec s s); try reflexivity; contradiction. }
     assert (Hcnt : count s (registered i pre) = 0 /\ count s (flat_map registration post) = 0).
     { rewrite Hsplit in Hc. unfold registered in Hc |- *. rewrite flat_map_app in Hc. simpl in Hc.
@@ -1004,9 +1016,61 @@ Proof.
     rewrite (ss_expected_unregistered i s pre []) by exact Hpre.
     simpl. rewrite ss_expected_registered; [| |exact Hpost].
     + f_equal.
-      destruct o as [s' p c [|]|s' t [|]| | |]; simpl in Hin; try contradiction;
+      destruct o as [s' p c [|]|s' t [|]| | | |]; simpl in Hin; try contradiction;
         destruct Hin as [->|[]]; simpl; rewrite Nat.eqb_refl; reflexivity.
     + apply existsb_exists. exists s. split; [|apply Nat.eqb_refl].
       rewrite registered_snoc. apply in_or_app. right.
-      destruct o as [s' p c [|]|s' t [|]| | |]; simpl in Hin |- *; try contradiction; exact Hin.
+      destruct o as [s' p c [|]|s' t [|]| | | |]; simpl in Hin |- *; try contradiction; exact Hin.
+Qed.
+
+(* ---------- a rejected add_rule leaves no trace ---------- *)
+(* the router after the calls l *)
+Fixpoint exec (r : router) (l : list op) : router :=
+  match l with
+  | [] => r
+  | o :: l' => exec (fst (step r o)) l'
+  end.
+
+Lemma run_app r l1 l2 : run r (l1 ++ l2) = run r l1 ++ run (exec r l1) l2.
+Proof.
+  revert r. induction l1 as [|o l1 IH]; intro r; simpl; [reflexivity|].
+  destruct (step r o) as [r' out]. simpl. rewrite IH. reflexivity.
+Qed.
+
+Lemma run_length r l : length (run r l) = length l.
+Proof.
+  revert r. induction l as [|o l IH]; intro r; simpl; [reflexivity|].
+  destruct (step r o) as [r' out]. simpl. rewrite IH. reflexivity.
+Qed.
+
+Lemma firstn_exact {A} (a b : list A) : firstn (length a) (a ++ b) = a.
+Proof. induction a as [|x a IH]; simpl; [destruct b; reflexivity | rewrite IH; reflexivity]. Qed.
+Lemma skipn_exact {A} (a b : list A) : skipn (length a) (a ++ b) = b.
+Proof. induction a as [|x a IH]; simpl; [reflexivity | exact IH]. Qed.
+
+Lemma per_sink_nil n : per_sink n [] = repeat [] n.
+Proof.
+  unfold per_sink. generalize 0. induction n as [|n IH]; intro a; simpl; [reflexivity|].
+  rewrite IH. reflexivity.
+Qed.
+
+(* the rejected call itself: raises, router unchanged, nothing delivered *)
+Lemma rejected_step r s w ss : step r (AddRej s w ss) = (r, (true, [])).
+Proof. reflexivity. Qed.
+
+(* every history with a rejected add_rule anywhere in it is observed exactly as the history without
+   that call, plus one step in which the call raised and no sink received anything *)
+Theorem rejected_no_trace n f fs l1 l2 s w ss :
+  let os := o_steps (model {| n_sinks := n; fb := f; fb_ss := fs; ops := l1 ++ l2 |}) in
+  o_steps (model {| n_sinks := n; fb := f; fb_ss := fs; ops := l1 ++ AddRej s w ss :: l2 |})
+  = firstn (length l1) os ++ {| s_raised := true; s_new := repeat [] n |} :: skipn (length l1) os
+  /\ o_round (model {| n_sinks := n; fb := f; fb_ss := fs; ops := l1 ++ AddRej s w ss :: l2 |})
+     = o_round (model {| n_sinks := n; fb := f; fb_ss := fs; ops := l1 ++ l2 |}).
+Proof.
+  unfold model. simpl. split.
+  - rewrite !run_app, !map_app. simpl.
+    replace (length l1) with (length (map (to_obs n) (run (init f fs) l1)))
+      by (rewrite map_length; apply run_length).
+    rewrite firstn_exact, skipn_exact. unfold to_obs at 2. simpl. rewrite per_sink_nil. reflexivity.
+  - rewrite !flat_map_app. reflexivity.
 Qed.
